@@ -141,6 +141,12 @@ class Gen:
         ni = self.pick_node(w) if ni is None else ni
         sym = sym or self.pick_sym(w, ni, present=True if r.random() < 0.9 else None)
         self.recent = (ni, sym)
+        if r.random() < 0.12:
+            # same number, another dimension: modify by a quantity whose SI value equals the symbol's scale
+            ent = w.nodes[ni % len(w.nodes)].model.get(sym)
+            if ent is not None:
+                return {"k": "modify_q", "node": ni, "h": r.randrange(2), "sym": sym, "v": float(ent[0]),
+                        "s": r.choice(["s", "kg", "K", "m"])}
         if r.random() < 0.25:
             usym = self.pick_sym(w, ni, present=True)
             return {"k": "modify_q", "node": ni, "h": r.randrange(2), "sym": sym,
@@ -270,6 +276,15 @@ class Gen:
                    "route": "ctor", "store": True}
         if r.random() < 0.3:
             yield self.g_calc(w)
+        cancel = r.random() < 0.3
+        if cancel:
+            # a product whose symbols cancel (kfoo * 1/m): the numeric coefficient comes from the registry
+            csp = r.choice([sym, r.choice(PREF) + sym])
+            yield {"k": "quantity", "node": ni, "h": 0, "v": 2.0, "s": csp, "route": "ctor", "store": True}
+            c1 = w.last_stored
+            yield {"k": "quantity", "node": ni, "h": 0, "v": 4.0, "s": r.choice(["m**-1", "1/s", "1/g", "1/m"]), "route": "ctor", "store": True}
+            c2 = w.last_stored
+            yield {"k": "binop", "f": r.choice(["mul", "mul", "div"]), "x": c1, "y": c2, "store": False}
         alias = r.random() < 0.3
         if alias:
             # a second handle on the same table (copy.copy(reg) / the registry of a Unit.copy()): created while
@@ -289,6 +304,16 @@ class Gen:
                 yield pr
         if r.random() < 0.4 and w.heap:
             yield {"k": "to", "x": self.slot(w), "s": r.choice(spellings), "how": "to", "store": self.store()}
+        if cancel:
+            yield {"k": "quantity", "node": ni, "h": 0, "v": 2.0, "s": csp, "route": "ctor", "store": True}
+            d1 = w.last_stored
+            yield {"k": "binop", "f": "mul", "x": d1, "y": c2, "store": False}
+            yield {"k": "binop", "f": r.choice(["eq", "add", "lt", "sub"]), "x": c1, "y": d1, "store": False}
+        elif r.random() < 0.3 and w.heap:
+            # a quantity made after the edit against one made before it
+            yield {"k": "quantity", "node": ni, "h": 0, "v": r.choice(VALUES), "s": sym, "route": "ctor", "store": True}
+            d1 = w.last_stored
+            yield {"k": "binop", "f": r.choice(["eq", "add", "lt", "sub", "max"]), "x": self.slot(w), "y": d1, "store": False}
 
     def s_cross(self, w):
         r = self.rng
@@ -1166,7 +1191,7 @@ class Sim:
                          [op["k"], op.get("f", ""), "third"])
         elif (nr != nx and isinstance(nx, int) and op["k"] in ("binop", "unitop")
               and hasattr(x, "is_Unit") == hasattr(y, "is_Unit")
-              and res.units is not getattr(y, "units", None)):
+              and not (res.units is getattr(y, "units", None) and "temperature" in str(res.units.dimensions))):
             # (res.units is y.units: the temperature rule of the pinned tree - K or delta_degC (+) degC gives the
             # right operand's unit OBJECT, e.g. the delta_degC handed out by an earlier degC - degC plus a degC)
             # array (op) array and Unit (op) Unit: the right operand's registry is allowed only as the
@@ -1313,8 +1338,9 @@ rw.Node.edited_since = _edited_since
 # Same executor, same oracles, same replay format as the seeded runs.
 
 SWEEP_SPELLINGS = ["foo", "kfoo", "foo*s", "kfoo**2/s", "foo**2", "sqrt(foo)", "2*foo", "g*foo/s**2", "Mfoo", "foo/kfoo"]
-SWEEP_WARM = [None] + [(s_, r_) for s_ in SWEEP_SPELLINGS for r_ in ("unit", "quantity")]
-SWEEP_PROBE = [(s_, r_) for s_ in SWEEP_SPELLINGS for r_ in ("unit", "to")] + [("", "sqrt1"), ("", "pow0"), ("", "mul01"), ("", "div10")]
+SWEEP_WARM = [None] + [(s_, r_) for s_ in SWEEP_SPELLINGS for r_ in ("unit", "quantity")] + [("", "cancel")]
+SWEEP_PROBE = [(s_, r_) for s_ in SWEEP_SPELLINGS for r_ in ("unit", "to")] + [("", "sqrt1"), ("", "pow0"), ("", "mul01"), ("", "div10"),
+                                                                                        ("", "cancel"), ("", "eqnew"), ("", "addnew")]
 SWEEP_EDITS = [
     [{"k": "modify", "sym": "foo", "value": 3.0}],
     [{"k": "modify_q", "sym": "foo", "v": 2.0, "s": "m"}],
@@ -1327,6 +1353,7 @@ SWEEP_EDITS = [
     [{"k": "define_unit", "sym": "Mfoo", "v": 3.0, "s": "m", "form": "tuple", "prefixable": False}],
     [{"k": "modify", "sym": "kfoo", "value": 3.0}],
     [{"k": "remove", "sym": "kfoo"}],
+    [{"k": "modify_q", "sym": "foo", "v": 2.0, "s": "s"}],  # same scale, another dimension
 ]
 SWEEP_CHAOS = [None, {"k": "clear_lru", "which": None}, {"k": "restart", "node": 1, "route": "json"}]
 SWEEP_LRU = [128, 1]
@@ -1347,7 +1374,11 @@ def sweep_case(index):
            {"k": "quantity", "node": 1, "h": 0, "v": 2.0, "s": "foo", "route": "ctor", "store": True},
            {"k": "quantity", "node": 1, "h": 0, "v": 9.0, "s": "foo**2", "route": "ctor", "store": True}]
     w = SWEEP_WARM[wa]
-    if w is not None:
+    if w is not None and w[1] == "cancel":
+        ops.append({"k": "quantity", "node": 1, "h": 0, "v": 2.0, "s": "kfoo", "route": "ctor", "store": True})   # slot 2
+        ops.append({"k": "quantity", "node": 1, "h": 0, "v": 4.0, "s": "m**-1", "route": "ctor", "store": True})  # slot 3
+        ops.append({"k": "binop", "f": "mul", "x": 2, "y": 3, "store": False})
+    elif w is not None:
         ops.append({"k": w[1], "node": 1, "h": 0, "s": w[0], "v": 1.0, "route": "ctor", "store": False})
     for e in SWEEP_EDITS[ed]:
         ops.append(dict(e, node=1, h=0))
@@ -1364,6 +1395,15 @@ def sweep_case(index):
         ops.append({"k": "binop", "f": "mul", "x": 0, "y": 1, "store": False})
     elif r_ == "div10":
         ops.append({"k": "binop", "f": "div", "x": 1, "y": 0, "store": False})
+    elif r_ == "cancel":
+        n0 = 4 if (w is not None and w[1] == "cancel") else 2
+        ops.append({"k": "quantity", "node": 1, "h": 0, "v": 2.0, "s": "kfoo", "route": "ctor", "store": True})
+        ops.append({"k": "quantity", "node": 1, "h": 0, "v": 4.0, "s": "m**-1", "route": "ctor", "store": True})
+        ops.append({"k": "binop", "f": "mul", "x": n0, "y": n0 + 1, "store": False})
+    elif r_ in ("eqnew", "addnew"):
+        n0 = 4 if (w is not None and w[1] == "cancel") else 2
+        ops.append({"k": "quantity", "node": 1, "h": 0, "v": 2.0, "s": "foo", "route": "ctor", "store": True})
+        ops.append({"k": "binop", "f": "eq" if r_ == "eqnew" else "add", "x": 0, "y": n0, "store": False})
     else:
         ops.append({"k": "unit", "node": 1, "h": 0, "s": s_, "store": False})
     cfg = {"profile": "C12", "lru": SWEEP_LRU[lru], "syms": ["foo", "kfoo", "Mfoo"], "defsyms": ["m"], "dims": ["length"],
